@@ -96,7 +96,11 @@ func c11TvProgram(life, mod, held, ending string, heldFirst bool) c11Program {
 	}
 	p := c11Program{Name: "tempview/" + life + "/" + mod + "/" + held + "/" + ending + order,
 		Files: map[string]string{"t.csv": "a,b\n1,x\n2,y\n", "w.csv": "a,c\n1,p\n3,q\n", "u.csv": "a,c\n1,p\n", ".u.csv.lock": ""},
-		Args:  []string{"--wait-timeout", "0.05", sql}}
+		Args:  []string{"--wait-timeout", "120", sql}}
+	if ending == "lock-timeout" {
+		// only the program that is meant to wait in vain waits briefly: a short wait anywhere else turns machine load into errors
+		p.Args[1] = "0.05"
+	}
 	p.Base = p.Name
 	if life == "stdin" {
 		p.Stdin = "a\n1\n"
